@@ -31,16 +31,18 @@ structure Inv (s : St μ) : Prop where
   capOk : ∀ c, s.cap = some c → s.chan.length ≤ c
   subm : s.submitted + s.pendingIncr = s.accepted.length
   drn : s.drained = s.wrappedLog.length
-  alive : s.handles ≠ [] → s.stopReq = false ∧ none ∉ s.chan ∧ s.phase ≠ .exited
-  stopped : s.handles = [] → s.stopReq = true
+  alive : s.handles ≠ [] → s.stopStage = .idle ∧ s.stopReq = false ∧ none ∉ s.chan ∧ s.phase ≠ .exited
+  stopped : s.handles = [] → s.stopStage ≠ .idle
+  flagSet : s.stopReq = true ↔ (s.stopStage = .pill ∨ s.stopStage = .done)
+  pillOnlyDone : none ∈ s.chan → s.stopStage = .done
   pillLast : ∀ pre post, s.chan = pre ++ none :: post → post = []
-  noDeadlock : s.cap ≠ some 0 → s.stopReq = true → s.phase = .recving → s.chan ≠ []
+  noDeadlock : s.cap ≠ some 0 → s.stopStage = .done → s.phase = .recving → s.chan ≠ []
   exitedDone : s.phase = .exited → somes s.chan = []
   fin : s.wrappedLog.length = s.finished.length + runningCount s.phase
   pan : s.panics = s.finished.countP isPanic
   hlog : s.handlerLog = if s.hasHandler then s.finished.filterMap errTok else []
   tr : s.trace = blocks s.wrappedLog s.finished s.hasHandler ++ (if s.released then [.released] else [])
-  rel : s.released = true → s.phase = .exited ∧ s.handles = []
+  rel : s.released = true → s.phase = .exited ∧ s.handles = [] ∧ s.stopStage = .done
 
 /-! ### auxiliary lemmas -/
 
@@ -119,39 +121,52 @@ theorem blocks_snoc_finish (ms : List μ) (m : μ) (os : List Outcome) (o : Outc
 theorem init_inv (cap : Option Nat) (hh : Bool) : Inv (init cap hh : St μ) := by
   cases hh <;> constructor <;> simp [init, inflight, blocks, runningCount]
 
+theorem room_of_empty (s : St μ) (hc : s.cap ≠ some 0) (hnil : s.chan = []) : room s = true := by
+  unfold room
+  split
+  · rfl
+  · rename_i c hcap
+    have : c ≠ 0 := fun h0 => hc (by rw [hcap, h0])
+    simp [hnil]; omega
+
 theorem step_inv (s s' : St μ) (l : Label μ) (o : Obs) (h : Inv s) (hs : step s l = some (s', o)) : Inv s' := by
-  obtain ⟨fifo, capOk, subm, drn, alive, stopped, pillLast, noDead, exitedDone, fin, pan, hlog, tr, rel⟩ := h
+  obtain ⟨fifo, capOk, subm, drn, alive, stopped, flagSet, pillOnly, pillLast, noDead, exitedDone, fin, pan, hlog, tr, rel⟩ := h
   cases l with
   | emitTry hd m =>
     simp only [step] at hs
     split at hs
     · rename_i hmem
       have hne : s.handles ≠ [] := by intro h0; simp [h0] at hmem
-      obtain ⟨hstop, hpill, hphase⟩ := alive hne
+      obtain ⟨hidle, hstop, hpill, hphase⟩ := alive hne
       split at hs
       · rename_i hroom
         simp at hs; obtain ⟨rfl, -⟩ := hs
-        refine ⟨?_, ?_, ?_, drn, ?_, ?_, ?_, ?_, ?_, fin, pan, hlog, tr, rel⟩
+        refine ⟨?_, ?_, ?_, drn, ?_, ?_, flagSet, ?_, ?_, ?_, ?_, fin, pan, hlog, tr, rel⟩
         · simp [← fifo]
         · intro c hc; have := room_cap s hroom c hc; simp; omega
         · simp; omega
-        · intro _; exact ⟨hstop, by simp [hpill], hphase⟩
+        · intro _; exact ⟨hidle, hstop, by simp [hpill], hphase⟩
         · intro h0; exact absurd h0 hne
+        · intro hm
+          have : none ∈ s.chan := by simpa using hm
+          exact absurd this hpill
         · intro pre post hch
           exfalso
           have hch' : s.chan ++ [some m] = pre ++ none :: post := hch
           have : none ∈ s.chan ++ [some m] := by rw [hch']; simp
           simp [hpill] at this
-        · intro _ hst; simp [hstop] at hst
+        · intro _ hst
+          have hst' : s.stopStage = .done := hst
+          rw [hidle] at hst'; cases hst'
         · intro hex; exact absurd hex hphase
       · simp at hs; obtain ⟨rfl, -⟩ := hs
-        exact ⟨fifo, capOk, subm, drn, alive, stopped, pillLast, noDead, exitedDone, fin, pan, hlog, tr, rel⟩
+        exact ⟨fifo, capOk, subm, drn, alive, stopped, flagSet, pillOnly, pillLast, noDead, exitedDone, fin, pan, hlog, tr, rel⟩
     · simp at hs
   | emitCount =>
     simp only [step] at hs
     split at hs
     · simp at hs; obtain ⟨rfl, -⟩ := hs
-      exact ⟨fifo, capOk, by simp; omega, drn, alive, stopped, pillLast, noDead, exitedDone, fin, pan, hlog, tr, rel⟩
+      exact ⟨fifo, capOk, by simp; omega, drn, alive, stopped, flagSet, pillOnly, pillLast, noDead, exitedDone, fin, pan, hlog, tr, rel⟩
     · simp at hs
   | clone hd =>
     simp only [step] at hs
@@ -159,54 +174,111 @@ theorem step_inv (s s' : St μ) (l : Label μ) (o : Obs) (h : Inv s) (hs : step 
     · rename_i hmem
       have hne : s.handles ≠ [] := by intro h0; simp [h0] at hmem
       simp at hs; obtain ⟨rfl, -⟩ := hs
-      refine ⟨fifo, capOk, subm, drn, fun _ => alive hne, by simp, pillLast, noDead, exitedDone, fin, pan, hlog, tr, ?_⟩
-      intro hr; exact absurd (rel hr).2 hne
+      refine ⟨fifo, capOk, subm, drn, fun _ => alive hne, by simp, flagSet, pillOnly, pillLast, noDead, exitedDone, fin, pan, hlog, tr, ?_⟩
+      intro hr; exact absurd (rel hr).2.1 hne
     · simp at hs
   | drop hd =>
     simp only [step] at hs
     split at hs
     · rename_i hmem
       have hne : s.handles ≠ [] := by intro h0; simp [h0] at hmem
-      obtain ⟨hstop, hpill, hphase⟩ := alive hne
-      have hrel : s.released = true → False := fun hr => hne (rel hr).2
+      obtain ⟨hidle, hstop, hpill, hphase⟩ := alive hne
+      have hrel : s.released = true → False := fun hr => hne (rel hr).2.1
       split at hs
       · rename_i hlast
         simp at hs; obtain ⟨rfl, -⟩ := hs
-        refine ⟨?_, ?_, subm, drn, ?_, ?_, ?_, ?_, ?_, fin, pan, hlog, tr, ?_⟩
-        · simp only []; split <;> simp [← fifo]
-        · intro c hc; simp only []; split
-          · rename_i hroom; have := room_cap s hroom c hc; simp; omega
-          · exact capOk c hc
+        refine ⟨fifo, capOk, subm, drn, ?_, ?_, ?_, ?_, pillLast, ?_, ?_, fin, pan, hlog, tr, ?_⟩
         · intro h; exact absurd hlast h
-        · intro _; rfl
-        · intro pre post hch
-          simp only [] at hch
-          split at hch
-          · -- the pill was appended at the very end
-            rcases List.eq_nil_or_concat post with rfl | ⟨post', x, rfl⟩
-            · rfl
-            · exfalso
-              have h1 : s.chan ++ [none] = (pre ++ none :: post') ++ [x] := by simpa using hch
-              have := List.append_inj' h1 rfl
-              have hmem' : none ∈ s.chan := by rw [this.1]; simp
-              exact hpill hmem'
-          · exfalso; have : none ∈ s.chan := by rw [hch]; simp
-            exact hpill this
-        · intro hc0 _ hph
-          simp only []
-          split
-          · simp
-          · rename_i hroom
-            obtain ⟨c, hc, hle⟩ := not_room s (by simpa using hroom)
-            intro hnil
-            have : c = 0 := by simp [hnil] at hle; exact hle
-            subst this; exact hc0 hc
+        · intro _ hst
+          have hst' : StopStage.flag = StopStage.idle := hst
+          cases hst'
+        · show s.stopReq = true ↔ (StopStage.flag = StopStage.pill ∨ StopStage.flag = StopStage.done)
+          simp [hstop]
+        · intro hm; exact absurd hm hpill
+        · intro _ hst
+          have hst' : StopStage.flag = StopStage.done := hst
+          cases hst'
         · intro hex; exact absurd hex hphase
         · intro hr; exact (hrel hr).elim
       · rename_i hnl
         simp at hs; obtain ⟨rfl, -⟩ := hs
-        exact ⟨fifo, capOk, subm, drn, fun _ => alive hne, fun h => absurd h hnl, pillLast, noDead, exitedDone,
-          fin, pan, hlog, tr, fun hr => (hrel hr).elim⟩
+        exact ⟨fifo, capOk, subm, drn, fun _ => alive hne, fun h => absurd h hnl, flagSet, pillOnly, pillLast, noDead,
+          exitedDone, fin, pan, hlog, tr, fun hr => (hrel hr).elim⟩
+    · simp at hs
+  | stopFlag =>
+    simp only [step] at hs
+    split at hs
+    · rename_i hst
+      have h0 : s.handles = [] := by
+        by_cases h0 : s.handles = []
+        · exact h0
+        · have := (alive h0).1; rw [hst] at this; cases this
+      simp at hs; obtain ⟨rfl, -⟩ := hs
+      refine ⟨fifo, capOk, subm, drn, ?_, ?_, ?_, ?_, pillLast, ?_, exitedDone, fin, pan, hlog, tr, ?_⟩
+      · intro hne; exact absurd h0 hne
+      · intro _ hst'
+        have hst'' : StopStage.pill = StopStage.idle := hst'
+        cases hst''
+      · show true = true ↔ (StopStage.pill = StopStage.pill ∨ StopStage.pill = StopStage.done)
+        simp
+      · intro hm
+        have := pillOnly hm; rw [hst] at this; cases this
+      · intro _ hst'
+        have hst'' : StopStage.pill = StopStage.done := hst'
+        cases hst''
+      · intro hr
+        have := (rel hr).2.2; rw [hst] at this; cases this
+    · simp at hs
+  | stopPill =>
+    simp only [step] at hs
+    split at hs
+    · rename_i hst
+      have h0 : s.handles = [] := by
+        by_cases h0 : s.handles = []
+        · exact h0
+        · have := (alive h0).1; rw [hst] at this; cases this
+      have hpill : none ∉ s.chan := by
+        intro hm; have := pillOnly hm; rw [hst] at this; cases this
+      have hreq : s.stopReq = true := flagSet.2 (.inl hst)
+      simp at hs; obtain ⟨rfl, -⟩ := hs
+      refine ⟨?_, ?_, subm, drn, ?_, ?_, ?_, ?_, ?_, ?_, ?_, fin, pan, hlog, tr, ?_⟩
+      · simp only []; split <;> simp [← fifo]
+      · intro c hc; simp only []; split
+        · rename_i hroom; have := room_cap s hroom c hc; simp; omega
+        · exact capOk c hc
+      · intro hne; exact absurd h0 hne
+      · intro _ hst'
+        have hst'' : StopStage.done = StopStage.idle := hst'
+        cases hst''
+      · show s.stopReq = true ↔ (StopStage.done = StopStage.pill ∨ StopStage.done = StopStage.done)
+        simp [hreq]
+      · intro _; rfl
+      · intro pre post hch
+        simp only [] at hch
+        split at hch
+        · -- the pill was appended at the very end
+          rcases List.eq_nil_or_concat post with rfl | ⟨post', x, rfl⟩
+          · rfl
+          · exfalso
+            have h1 : s.chan ++ [none] = (pre ++ none :: post') ++ [x] := by simpa using hch
+            have := List.append_inj' h1 rfl
+            have hmem' : none ∈ s.chan := by rw [this.1]; simp
+            exact hpill hmem'
+        · exfalso; have : none ∈ s.chan := by rw [hch]; simp
+          exact hpill this
+      · intro hc0 _ _
+        simp only []
+        split
+        · simp
+        · rename_i hroom
+          intro hnil
+          have := room_of_empty s hc0 hnil
+          exact hroom this
+      · intro hex
+        have := exitedDone hex
+        simp only []; split <;> simp [this]
+      · intro hr
+        have := (rel hr).2.2; rw [hst] at this; cases this
     · simp at hs
   | wCheck =>
     simp only [step] at hs
@@ -218,16 +290,16 @@ theorem step_inv (s s' : St μ) (l : Label μ) (o : Obs) (h : Inv s) (hs : step 
       · rename_i hcond
         simp at hcond
         simp at hs; obtain ⟨rfl, -⟩ := hs
-        refine ⟨by simpa [hph, inflight] using fifo, capOk, subm, drn, ?_, stopped, pillLast, by simp, by simp [hcond.2],
-          by simpa [runningCount] using fin', pan, hlog, tr, fun hr => (hrel hr).elim⟩
-        intro hne; have := (alive hne).1; simp [hcond.1] at this
+        refine ⟨by simpa [hph, inflight] using fifo, capOk, subm, drn, ?_, stopped, flagSet, pillOnly, pillLast, by simp,
+          by simp [hcond.2], by simpa [runningCount] using fin', pan, hlog, tr, fun hr => (hrel hr).elim⟩
+        intro hne; have := (alive hne).2.1; simp [hcond.1] at this
       · rename_i hcond
         simp at hs; obtain ⟨rfl, -⟩ := hs
-        refine ⟨by simpa [hph, inflight] using fifo, capOk, subm, drn, ?_, stopped, pillLast, ?_, by simp,
+        refine ⟨by simpa [hph, inflight] using fifo, capOk, subm, drn, ?_, stopped, flagSet, pillOnly, pillLast, ?_, by simp,
           by simpa [runningCount] using fin', pan, hlog, tr, fun hr => (hrel hr).elim⟩
-        · intro hne; exact ⟨(alive hne).1, (alive hne).2.1, by simp⟩
+        · intro hne; exact ⟨(alive hne).1, (alive hne).2.1, (alive hne).2.2.1, by simp⟩
         · intro _ hst _ hnil
-          have hst' : s.stopReq = true := hst
+          have hst' : s.stopReq = true := flagSet.2 (.inr hst)
           have hnil' : s.chan = [] := hnil
           simp [hst', hnil'] at hcond
     · simp at hs
@@ -242,17 +314,24 @@ theorem step_inv (s s' : St μ) (l : Label μ) (o : Obs) (h : Inv s) (hs : step 
       · rename_i rest hch
         simp at hs; obtain ⟨rfl, -⟩ := hs
         have hrest : rest = [] := pillLast [] rest (by simpa using hch)
-        refine ⟨by simpa [hph, hch, inflight, hrest] using fifo, ?_, subm, drn, ?_, stopped, ?_, by simp, by simp [hrest],
-          by simpa [runningCount] using fin', pan, hlog, tr, fun hr => (hrel hr).elim⟩
+        refine ⟨by simpa [hph, hch, inflight, hrest] using fifo, ?_, subm, drn, ?_, stopped, flagSet, ?_, ?_, by simp,
+          by simp [hrest], by simpa [runningCount] using fin', pan, hlog, tr, fun hr => (hrel hr).elim⟩
         · intro c hc; have := capOk c hc; simp [hch] at this; show rest.length ≤ c; omega
-        · intro hne; have := (alive hne).2.1; simp [hch] at this
+        · intro hne; have := (alive hne).2.2.1; simp [hch] at this
+        · intro hm
+          have hm' : none ∈ rest := hm
+          simp [hrest] at hm'
         · intro pre post h'; simp [hrest] at h'
       · rename_i m rest hch
         simp at hs; obtain ⟨rfl, -⟩ := hs
-        refine ⟨by simpa [hph, hch, inflight] using fifo, ?_, subm, drn, ?_, stopped, ?_, by simp, by simp,
+        refine ⟨by simpa [hph, hch, inflight] using fifo, ?_, subm, drn, ?_, stopped, flagSet, ?_, ?_, by simp, by simp,
           by simpa [runningCount] using fin', pan, hlog, tr, fun hr => (hrel hr).elim⟩
         · intro c hc; have := capOk c hc; simp [hch] at this; show rest.length ≤ c; omega
-        · intro hne; have := (alive hne); simp [hch] at this; exact ⟨this.1, this.2.1, by simp⟩
+        · intro hne
+          obtain ⟨a1, a2, a3, _⟩ := alive hne
+          exact ⟨a1, a2, fun hm => a3 (by rw [hch]; exact List.mem_cons_of_mem _ hm), by simp⟩
+        · intro hm
+          exact pillOnly (by rw [hch]; exact List.mem_cons_of_mem _ hm)
         · intro pre post h'
           have h'' : rest = pre ++ none :: post := h'
           exact pillLast (some m :: pre) post (by simp [hch, h''])
@@ -265,9 +344,9 @@ theorem step_inv (s s' : St μ) (l : Label μ) (o : Obs) (h : Inv s) (hs : step 
       have fin' : s.wrappedLog.length = s.finished.length := by simpa [hph, runningCount] using fin
       have hrf : s.released = false := by cases hr : s.released <;> simp_all
       simp at hs; obtain ⟨rfl, -⟩ := hs
-      refine ⟨by simpa [hph, inflight] using fifo, capOk, subm, by simp [drn], ?_, stopped, pillLast, by simp, by simp,
-        by simp [runningCount, fin'], pan, hlog, ?_, fun hr => (hrel hr).elim⟩
-      · intro hne; exact ⟨(alive hne).1, (alive hne).2.1, by simp⟩
+      refine ⟨by simpa [hph, inflight] using fifo, capOk, subm, by simp [drn], ?_, stopped, flagSet, pillOnly, pillLast,
+        by simp, by simp, by simp [runningCount, fin'], pan, hlog, ?_, fun hr => (hrel hr).elim⟩
+      · intro hne; exact ⟨(alive hne).1, (alive hne).2.1, (alive hne).2.2.1, by simp⟩
       · show s.trace ++ [Ev.enter m] =
           blocks (s.wrappedLog ++ [m]) s.finished s.hasHandler ++ (if s.released = true then [Ev.released] else [])
         rw [blocks_snoc_enter _ _ _ _ fin', tr, hrf]; simp
@@ -286,12 +365,15 @@ theorem step_inv (s s' : St μ) (l : Label μ) (o : Obs) (h : Inv s) (hs : step 
           s''.panics = s.panics + (if isPanic oc then 1 else 0) →
           s''.handlerLog = s.handlerLog ++ (if s.hasHandler then (errTok oc).toList else []) →
           s''.trace = s.trace ++ handledPart oc s.hasHandler →
+          s''.stopStage = s.stopStage →
           Inv s'' := by
-        intro s'' h1 h2 h3 h4 h5 h6 h7 h8 h9 h10 h11 h12 h13 h14 h15 h16
+        intro s'' h1 h2 h3 h4 h5 h6 h7 h8 h9 h10 h11 h12 h13 h14 h15 h16 h17
         refine ⟨by simpa [h1, h2, h3, h4, hph, inflight] using fifo, by simpa [h1, h5] using capOk, by simpa [h2, h6, h7] using subm,
-          by simpa [h3, h8] using drn, ?_, by simpa [h9, h10] using stopped, by simpa [h1] using pillLast, by simp [h4], by simp [h4],
+          by simpa [h3, h8] using drn, ?_, by simpa [h9, h17] using stopped, by simpa [h10, h17] using flagSet,
+          by simpa [h1, h17] using pillOnly, by simpa [h1] using pillLast, by simp [h4], by simp [h4],
           ?_, ?_, ?_, ?_, ?_⟩
-        · intro hne; rw [h9] at hne; rw [h10, h1, h4]; exact ⟨(alive hne).1, (alive hne).2.1, by simp⟩
+        · intro hne; rw [h9] at hne; rw [h17, h10, h1, h4]
+          exact ⟨(alive hne).1, (alive hne).2.1, (alive hne).2.2.1, by simp⟩
         · rw [h3, h4, h13, fin']; simp [runningCount]
         · rw [h14, h13, pan]; cases oc <;> simp [isPanic, List.countP_append]
         · rw [h15, h11, h13, hlog]
@@ -302,16 +384,16 @@ theorem step_inv (s s' : St μ) (l : Label μ) (o : Obs) (h : Inv s) (hs : step 
       | ok =>
         simp at hs; obtain ⟨rfl, -⟩ := hs
         exact common _ rfl rfl rfl rfl rfl rfl rfl rfl rfl rfl rfl rfl rfl (by simp [isPanic]) (by simp [errTok])
-          (by simp [handledPart, errTok])
+          (by simp [handledPart, errTok]) rfl
       | err tok =>
         simp at hs; obtain ⟨rfl, -⟩ := hs
         exact common _ rfl rfl rfl rfl rfl rfl rfl rfl rfl rfl rfl rfl rfl (by simp [isPanic])
           (by simp only []; cases s.hasHandler <;> simp [errTok])
-          (by simp only []; cases s.hasHandler <;> simp [handledPart, errTok])
+          (by simp only []; cases s.hasHandler <;> simp [handledPart, errTok]) rfl
       | panic =>
         simp at hs; obtain ⟨rfl, -⟩ := hs
         exact common _ rfl rfl rfl rfl rfl rfl rfl rfl rfl rfl rfl rfl rfl (by simp [isPanic]) (by simp [errTok])
-          (by simp [handledPart, errTok])
+          (by simp [handledPart, errTok]) rfl
     · simp at hs
   | release =>
     simp only [step] at hs
@@ -320,10 +402,12 @@ theorem step_inv (s s' : St μ) (l : Label μ) (o : Obs) (h : Inv s) (hs : step 
       split at hs
       · rename_i hcond
         simp at hcond
+        obtain ⟨⟨hc0, hcd⟩, hcr⟩ := hcond
         simp at hs; obtain ⟨rfl, -⟩ := hs
-        refine ⟨fifo, capOk, subm, drn, alive, stopped, pillLast, noDead, exitedDone, fin, pan, hlog, ?_, fun _ => ⟨hph, hcond.1⟩⟩
+        refine ⟨fifo, capOk, subm, drn, alive, stopped, flagSet, pillOnly, pillLast, noDead, exitedDone, fin, pan, hlog, ?_,
+          fun _ => ⟨hph, hc0, hcd⟩⟩
         show s.trace ++ [Ev.released] = blocks s.wrappedLog s.finished s.hasHandler ++ (if true = true then [Ev.released] else [])
-        rw [tr, hcond.2]; simp
+        rw [tr, hcr]; simp
       · simp at hs
     · simp at hs
 
@@ -354,6 +438,16 @@ theorem step_cfg (s s' : St μ) (l : Label μ) (o : Obs) (hs : step s l = some (
     simp only [step] at hs
     split at hs
     · split at hs <;> (simp at hs; obtain ⟨rfl, -⟩ := hs; exact ⟨rfl, rfl⟩)
+    · simp at hs
+  | stopFlag =>
+    simp only [step] at hs
+    split at hs
+    · simp at hs; obtain ⟨rfl, -⟩ := hs; exact ⟨rfl, rfl⟩
+    · simp at hs
+  | stopPill =>
+    simp only [step] at hs
+    split at hs
+    · simp at hs; obtain ⟨rfl, -⟩ := hs; exact ⟨rfl, rfl⟩
     · simp at hs
   | wCheck =>
     simp only [step] at hs
